@@ -19,6 +19,9 @@ import (
 	"sort"
 	"strings"
 	"sync/atomic"
+	"time"
+
+	"github.com/sasha-s/go-deadlock"
 )
 
 // VerifSchemaColumn describes one column of the real schema.
@@ -74,6 +77,15 @@ var verifOpNames = map[Operator]string{
 func VerifInit(logLevel string) {
 	InitLogging(&Config{LogLevel: logLevel, LogFile: "stderr"})
 	InitObjects()
+	// like the daemon without -debug-deadlock (main.go): lock order checking is off unless asked for
+	if secs := os.Getenv("VERIF_DEADLOCK"); secs != "" {
+		deadlock.Opts.Disable = false
+		if dur, err := time.ParseDuration(secs + "s"); err == nil {
+			deadlock.Opts.DeadlockTimeout = dur
+		}
+	} else {
+		deadlock.Opts.Disable = true
+	}
 }
 
 // VerifDumpSchema executes the real InitObjects and returns the schema.
